@@ -109,9 +109,38 @@ def r1(chk, facts, spec):
     shapes = {}
     canon = {}
     want_ty = "u%d" % spec.hash_bits
+    SAMPLES = ("", "a", "abc", "name", "é", "日本語", "r#type", "x" * 40, "\U0010ffff")
+    evaluated = {}
+    for cn, kre in copies:
+        # the function is small and pure: evaluate it and compare with the specification's hash on every sample (any spelling of the
+        # loop — for, fold, iterator chain — is then fine); only if it leaves the evaluable fragment fall back to the shape rules
+        from c11_util import Interp, NotEvaluable
+        cr_ = facts.crate(cn)
+        hh = cr_.hir.get(cr_.body(kre).key)
+        if hh is None:
+            continue
+        try:
+            it = Interp(cr_)
+            bad = None
+            for smp in SAMPLES:
+                want = 0
+                for byte in smp.encode("utf-8"):
+                    want = (want * spec.hash_mult + byte) % (1 << spec.hash_bits)
+                got = it.call_fn(hh, [smp])
+                if got != want and bad is None:
+                    bad = (smp, got, want)
+            evaluated[cn] = bad
+        except NotEvaluable:
+            pass
     for cn, kre in copies:
         b = facts.crate(cn).body(kre)
         chk.analysed(b.key)
+        if cn in evaluated:
+            bad = evaluated[cn]
+            chk.expect(bad is None, f"copy:{cn}:value",
+                       f"{b.key} evaluated on {bad[0]!r} gives {bad[1]}, the specification's hash of its UTF-8 bytes is {bad[2]}" if bad else "",
+                       where=b.span["file"], ok_detail=f"evaluated on {len(SAMPLES)} names (ASCII, non-ASCII, long): equals sum(b_i * {spec.hash_mult}^(k-i)) mod 2^{spec.hash_bits}")
+            continue
         try:
             sh = hash_shape(b)
         except AnchorMissing as e:
@@ -130,7 +159,10 @@ def r1(chk, facts, spec):
         chk.expect(sh["byte_casts"] == [("u8", want_ty)] and sh["param_ty"] == "&str", f"copy:{cn}:bytes",
                    f"{b.key} must add each UTF-8 byte of its &str parameter zero-extended to {want_ty}; found casts "
                    f"{sh['byte_casts']} on parameter {sh['param_ty']}", ok_detail=f"bytes via {sh['bytes_via']}, u8 -> {want_ty}")
-    if len(shapes) == 2:
+    if len(evaluated) == 2:
+        chk.expect(all(v is None for v in evaluated.values()), "copies:same-function", "the two copies differ on a sample (see copy:*:value)",
+                   ok_detail="both copies equal the specification's hash on every sample")
+    elif len(shapes) == 2:
         a, b = shapes["candid"], shapes["candid_derive"]
         same = canon["candid"] == canon["candid_derive"]
         sem = ("init", "mult", "mul_ty", "add_ty", "ret_ty", "param_ty", "byte_casts")
@@ -149,6 +181,16 @@ def r1(chk, facts, spec):
     for cn, kre, name in expected:
         cr = facts.crate(cn)
         bs = [b for k, b in cr.bodies.items() if re.search(kre, k)]
+        # ... or a crate-local helper these functions call (part of the work may have been factored out)
+        for _ in range(2):
+            seenk = {b.key for b in bs}
+            for b in list(bs):
+                for _bi, t_, _cal in b.call_sites():
+                    d_, r_ = term_callee(t_)
+                    for kk in (d_, r_):
+                        if kk and kk in cr.bodies and kk not in seenk and cr.bodies[kk].span["file"] == b.span["file"]:
+                            seenk.add(kk)
+                            bs.extend(cr.bodies[kk].with_closures())
         hit = [b for b in bs if any(cal == hashfn[cn] for _, _, cal in b.call_sites())]
         n_callers += len(hit)
         chk.expect(bool(hit), f"caller:{cn}:{name}",
@@ -162,7 +204,7 @@ def r1(chk, facts, spec):
         cr = facts.crate(cn)
         for k, b in cr.bodies.items():
             scanned += 1
-            if k in ("candid::idl_hash", "candid_derive::idl_hash"):
+            if re.match(r"^(candid|candid_derive)::idl_hash(::\{closure#\d+\})*$", k):
                 continue
             for bi, blk in enumerate(b.blocks):
                 ops = []
@@ -381,12 +423,17 @@ def derive_provenance(chk, facts):
     """every idl_hash call of the derive hashes the `rename` attribute if there is one, else the un-rawed identifier"""
     d = facts.crate("candid_derive")
     n_ren = n_unraw = n_sites = 0
-    for fn in ("enum_from_ast", "fields_from_ast"):
-        h = d.fn(r"derive::%s$" % fn)
+    # every function of the derive module that hashes a name (today enum_from_ast and fields_from_ast; found by what they call, so
+    # moving the per-variant code into a helper is not an event)
+    hashing = sorted(k for k, hh in d.hir.items() if k.startswith("candid_derive::derive::") and hh.get("body") is not None
+                     and hh.get("kind") in ("Fn", "AssocFn") and scoped_calls(hh, r"^candid_derive::idl_hash$"))
+    if len(hashing) < 2:
+        raise AnchorMissing(f"candid_derive::derive: expected at least two functions that call idl_hash (variants, fields), found {hashing}")
+    for hk in hashing:
+        h = d.hir[hk]
+        fn = h["name"]
         chk.analysed(h["key"])
         sites = scoped_calls(h, r"^candid_derive::idl_hash$")
-        if not sites:
-            raise AnchorMissing(f"{h['key']}: no call of candid_derive::idl_hash")
         counts = {}
         for call, env, arms in sites:
             # innermost enclosing match on `<x>.rename`
